@@ -74,6 +74,8 @@ def mystery_stream(ctx, nmax):
 
 
 def run(ctx):
+    from .c03 import many_runs
+    many_runs(ctx)         # (get_true_interval_masks also yields the interstorm runs: more of them than sixteen bits count)
     if ctx.tier == "quick":
         mystery_stream(ctx, 6)
         R.run_records(ctx, "C04", 240, field=2)
